@@ -30,6 +30,7 @@ import typing
 import forml
 from forml import application, io
 from forml.io import layout
+from forml.provider.gateway import rest
 from forml.provider.registry.filesystem import posix
 from forml.runtime import _service
 
@@ -152,6 +153,18 @@ def gen_cfg(seed: int, faulty: typing.Optional[bool] = None) -> dict:
             if sources and not req['fail'] and dup.random() < 0.4:
                 src = dup.choice(sources)
                 req.update(prid=src['rid'], nrows=src['nrows'], vals=list(src['vals']), swapped=src['swapped'])
+    # the front end: every other run goes through the real REST gateway (its Starlette application driven over ASGI
+    # by simulated HTTP clients: bodies arrive in pieces, clients hang up mid-body) instead of calling Engine.apply
+    web = random.Random(seed ^ 0x4E57)
+    front = 'rest' if web.random() < float(os.environ.get('C16_REST', 0.5)) else 'engine'
+    if front == 'rest':
+        for req in requests:
+            if web.random() < 0.5:
+                req['cuts'] = sorted(web.randrange(1, 60) for _ in range(web.choice([1, 1, 2, 3])))
+            if faulty and not req['fail'] and req.get('cancel') is None and web.random() < 0.06:
+                req['hangup'] = True  # the client disconnects before the body is complete
+            if web.random() < 0.25:
+                req['loose'] = web.choice(['no-accept', 'no-accept', 'wildcard', 'quality', 'charset', 'case', 'csv', 'csv'])
     commits = []
     for app in apps:
         if app['kind'] == 'latest' and rng.random() < 0.5 and not burst:
@@ -164,7 +177,7 @@ def gen_cfg(seed: int, faulty: typing.Optional[bool] = None) -> dict:
             if rng.random() < 0.5:
                 faults[kind] = p
     return {
-        'seed': seed, 'faulty': faulty, 'apps': apps, 'requests': requests, 'commits': commits,
+        'seed': seed, 'faulty': faulty, 'front': front, 'apps': apps, 'requests': requests, 'commits': commits,
         'processes': rng.randint(3, 4) if storm else rng.randint(1, 4),
         'kernel': {'policy': 'random' if storm else rng.choice(['random', 'random', 'pct']),
                    'preempt_p': rng.choice([0.1, 0.3]) if storm else rng.choice([0.02, 0.1, 0.3, 0.6]),
@@ -199,6 +212,39 @@ def make_request(req: dict) -> layout.Request:
         swapped=req.get('swapped', False))
 
 
+def make_http(req: dict) -> tuple[bytes, list]:
+    """The same request as an HTTP body plus headers. Header variations a real client may send and that must not
+    change the outcome: no Accept at all (the response then uses the request's encoding), a wildcard, quality values
+    with the supported encoding not in first position, an extra option on the content type, other letter case of
+    the header names."""
+    fail = req['fail']
+    body = serving.make_body(req.get('prid', req['rid']), req['nrows'], req['vals'],
+                             drop_column='val' if fail == 'missing-column' else None, garbage=fail == 'garbage',
+                             swapped=req.get('swapped', False))
+    content = 'application/x-nonexistent' if fail == 'bad-content' else 'application/json'
+    accept = 'application/x-nonexistent' if fail == 'bad-accept' else 'application/json'
+    loose = req.get('loose')
+    names = ('CONTENT-TYPE', 'ACCEPT') if loose == 'case' else ('Content-Type', 'Accept')
+    if loose == 'charset' and not fail:
+        content = 'application/json; charset=utf-8'
+    if not fail:
+        if loose == 'wildcard':
+            accept = 'application/x-nonexistent, application/*; q=0.5'
+        elif loose == 'quality':
+            accept = 'application/x-nonexistent; q=0.9, application/json; q=0.8, text/x-unknown; q=0.95'
+        elif loose == 'csv':
+            accept = 'text/csv'
+    headers = [(names[0], content)]
+    if not (loose == 'no-accept' and not fail):
+        headers.append((names[1], accept))
+    return body, headers
+
+
+def parse_instance(header: str) -> list:
+    _, project, release, generation = header.rsplit('-', 3)
+    return [project, release, int(generation)]
+
+
 def simulate(cfg: dict, schedule: typing.Optional[list] = None) -> dict:
     logging.disable(logging.CRITICAL)
     template = TEMPLATE
@@ -226,22 +272,64 @@ def simulate(cfg: dict, schedule: typing.Optional[list] = None) -> dict:
 
     def main():
         loop = loopmod.SimEventLoop()
-        engine = _service.Engine(inventory, registry, io.Importer(serving.Feed()), processes=cfg['processes'],
-                                 loop=loop)
+        webapp = []
+        if cfg.get('front') == 'rest':
+            # the real gateway provider; `server` is its own seam (uvicorn.run in production): here it just hands the
+            # Starlette application over to the simulated HTTP clients
+            gateway = rest.Gateway(inventory, registry, io.Importer(serving.Feed()), processes=cfg['processes'],
+                                   loop=loop, server=lambda app, **_: webapp.append(app))
+            gateway.run(gateway._engine.apply, gateway._engine.stats, **gateway._kwargs)  # pylint: disable=protected-access
+            engine = gateway._engine  # pylint: disable=protected-access
+        else:
+            engine = _service.Engine(inventory, registry, io.Importer(serving.Feed()), processes=cfg['processes'],
+                                     loop=loop)
+
+        async def over_http(name: str, req: dict, rec: dict) -> None:
+            body, headers = make_http(req)
+
+            async def pace():
+                await asyncio.sleep(0)
+
+            got = await serving.http_post(webapp[0], f'/{name}', body, headers, req.get('cuts', ()),
+                                          bool(req.get('hangup')), client=req['rid'], pace=pace)
+            rec['http'] = got['status']
+            kernel.stats[f'http:{got["status"]}'] += 1
+            kernel.probe('rest-exchange')
+            if len(req.get('cuts', ())) and len(body) > min(req['cuts']):
+                kernel.probe('rest-body-in-pieces')
+            if got['starts'] > 1 or got['completions'] > 1:
+                rec['n'] += max(got['starts'], got['completions']) - 1  # a second response on one exchange
+            if req.get('hangup'):
+                kernel.stats['fault:client-hung-up-mid-body'] += 1
+                rec.update(status='hungup', answered=got['status'] == 200)
+            elif got['raised'] is not None:
+                err = got['raised']
+                rec.update(status='exc', exc=type(err).__name__, platform=isinstance(err, forml.AnyError), msg=str(err)[:160])
+            elif got['status'] == 200:
+                rec.update(status='ok', payload=got['body'].decode('utf-8', 'replace'),
+                           encoding=got['headers'].get('content-type', '').split(';')[0].strip(),
+                           instance=parse_instance(got['headers'].get('x-forml-instance', '---')))
+            else:
+                rec.update(status='exc', exc=serving.STATUS_EXC.get(got['status'], f'HTTP{got["status"]}'),
+                           platform=got['status'] in serving.STATUS_EXC, msg=got['body'].decode('utf-8', 'replace')[:160])
 
         async def client(req: dict):
             if req['offset']:
                 await asyncio.sleep(req['offset'])
             name = 'no-such-app' if req['fail'] == 'unknown-app' else cfg['apps'][req['app']]['name']
             rec = records[req['rid']] = {'invoke': kernel.step, 't0': kernel.now, 'n': 0}
+            response = None
             try:
-                response = await engine.apply(name, make_request(req))
+                if webapp:
+                    await over_http(name, req, rec)
+                else:
+                    response = await engine.apply(name, make_request(req))
             except BaseException as err:  # pylint: disable=broad-except
                 if isinstance(err, (asyncio.CancelledError, kmod.Deadlock, kmod.StepBudget)):
                     raise
                 rec.update(status='exc', exc=type(err).__name__, platform=isinstance(err, forml.AnyError),
                            msg=str(err)[:160])
-            else:
+            if response is not None:
                 gen = response.instance._generation  # pylint: disable=protected-access
                 rec.update(status='ok', payload=response.payload.data.decode('utf-8', 'replace'),
                            encoding=response.payload.encoding.kind,
@@ -353,6 +441,13 @@ def judge(cfg: dict, result: dict) -> list[dict]:
                             'detail': f'request {req["rid"]} ({req["fail"] or "valid"}) to {app["name"]} got no outcome '
                                       f'within {vbudget(cfg)} virtual seconds after the last arrival'})
             continue
+        if rec['status'] == 'hungup':
+            # the client went away before its body was complete: there is nothing to answer, and nothing may be
+            # answered from half a body (everybody else must still be served)
+            if rec.get('answered'):
+                out.append({'class': 'missing-failure', 'rid': req['rid'],
+                            'detail': f'request {req["rid"]} was answered 200 although its body never arrived completely'})
+            continue
         if rec['n'] != 1:
             out.append({'class': 'duplicate-response', 'rid': req['rid'], 'detail': f'{rec["n"]} outcomes'})
         if req['fail']:
@@ -367,6 +462,11 @@ def judge(cfg: dict, result: dict) -> list[dict]:
             continue
         if rec['status'] != 'ok' and 'injected transient inventory storage error' in rec.get('msg', ''):
             continue  # this request met the injected inventory fault itself: it may fail (alone)
+        asked = 'text/csv' if req.get('loose') == 'csv' else 'application/json'
+        if rec['status'] == 'ok' and rec.get('encoding') != asked:
+            out.append({'class': 'wrong-answer', 'rid': req['rid'],
+                        'detail': f'request {req["rid"]} asked for {asked} and was answered in {rec.get("encoding")!r}'})
+            continue
         if rec['status'] != 'ok':
             out.append({'class': 'spurious-failure', 'rid': req['rid'], 'exc': rec['exc'],
                         'detail': f'valid request {req["rid"]} to {app["name"]} failed with {rec["exc"]}: {rec["msg"]}'})
@@ -388,7 +488,10 @@ def judge(cfg: dict, result: dict) -> list[dict]:
                                      serving.bias_of(project, release))
         expect_by_rid[req['rid']] = want
         try:
-            got = [list(r.values())[0] for r in json.loads(rec['payload'])]
+            if asked == 'text/csv':
+                got = [int(line) for line in rec['payload'].strip().splitlines()[1:]]
+            else:
+                got = [list(r.values())[0] for r in json.loads(rec['payload'])]
         except Exception:  # pylint: disable=broad-except
             got = rec['payload']
         if got != want:
@@ -623,23 +726,26 @@ def main(argv: list[str]) -> int:
         'fault_injecting_runs': nfaulty, 'fault_free_runs': nruns - nfaulty,
         'distinct_workload_shapes': len(shapes),
         'fault_kinds_fired': {k[6:]: v for k, v in stats.items() if k.startswith('fault:')},
+        'http_statuses_seen': {k[5:]: v for k, v in stats.items() if k.startswith('http:')},
         'preemption_points_offered': stats.get('preempt_points', 0),
         'reach_probes': dict(probes),
-        'real_components': ['runtime._service.Engine', 'dispatch.Wrapper/Dealer/Frozen', 'prediction.Executor/Pool/'
+        'real_components': ['provider.gateway.rest.Gateway/Apply + Starlette routing, request and response objects (half of the runs)', 'runtime._service.Engine', 'dispatch.Wrapper/Dealer/Frozen', 'prediction.Executor/Pool/'
                             'Pool.Worker/Task/Result', 'pyfunc.Runner/Expression', 'flow.compile', 'application.'
                             'Generic/Explicit/Latest/ABTest', 'layout codecs (json)', 'asset.Directory/Instance/State',
                             'posix.Registry on a really trained template registry', 'generated project packages'],
         'stubbed_components': ['OS processes and threads (kernel tasks; spawn = ForkingPickler copy, fork = deep copy)',
                                'multiprocessing.Manager queues/events (pickle every item)',
                                'ThreadPoolExecutor/ProcessPoolExecutor (process flavour pickles call and result)',
-                               'asyncio event loop (virtual time)', 'clock', 'inventory (in-memory)'],
+                               'asyncio event loop (virtual time)', 'clock', 'inventory (in-memory)',
+                               'uvicorn (the gateway\'s server= seam hands the ASGI application to simulated HTTP clients)'],
         'sweep_completed': exhausted, 'harness_errors': len(errors),
     }
     base.write_evidence(PROP, tier, seed0, 'exploration', coverage, wall, nviol, [
         'pre-emption model is CPython 3.12 GIL-faithful: thread switches only at function entry, backward jumps and '
         'after calls, and only inside the whitelisted forml files',
         'process tasks are atomic between IPC operations',
-        'the REST gateway (uvicorn) is outside the simulation; Engine.apply is the observation point',
+        'about half of the runs go through the real REST gateway provider (its Starlette application driven over ASGI '
+        'by simulated HTTP clients); uvicorn itself (sockets, HTTP parsing) is outside the simulation',
         'a clean batch is evidence, not proof'])
     print(f'{PROP}: runs={nruns} requests={nreq} steps={steps} vtime={vtime:.0f}s distinct_traces={len(digests)} '
           f'violations={nviol} known={len(known)} harness_errors={len(errors)} wall={wall:.1f}s')
